@@ -125,11 +125,25 @@ CLAIMED = {
             "displaybpm are compared with TLC's answer; random configurations over the full space with values random within each "
             "syntactic class are validated by TLC.",
             "sentinel values make mixing visible; displayed-BPM clause only when the chosen source has BPMS."),
+    "C19": ("discovery", "6/C19",
+            "TLC enumerates every listing (all orders) of up to 3-4 names from an alphabet of simfile names in mixed case and near "
+            "misses, and every pack of up to three entries of seven kinds, with the directory / pack views as invariants; each is "
+            "materialised on a native temp directory and an in-memory PyFilesystem behind a proxy that forces the listing order and "
+            "records every listdir / open; SimfileDirectory, SimfilePack, opendir, openpack are run with strict, ignore_duplicate and "
+            "encoding options and validated by TLC against the listings the library saw; random trees up to depth 3.",
+            "listing order is an input (logged from the library's own listdir calls); option pass-through observed via stray text and recorded open encodings."),
+    "C20": ("discovery", "6/C20",
+            "TLC enumerates listings of names that hit / nearly hit / miss each asset pattern x property-value states x asset kinds and "
+            "pack / sibling listings for the banner, with 'answer set non-empty, existing entries only, None iff nothing matches' as "
+            "invariants; each case is materialised on both filesystems and every asset is read twice; answers must be members of TLC's "
+            "answer set and exist; random directories in mixed case.",
+            "which of several matching entries is returned is not claimed; disc lookup by name not claimed."),
 }
 
 PENDING = {}
 
 ENGINES = [
+    ("discovery", "spec/discovery", ["C19", "C20"], "Discovery.tla (directory / pack views, asset answer sets, pack banner) + MC_Discovery + Trace_Discovery + order-forcing recording filesystem proxy"),
     ("timingsource", "spec/timingsource", ["C15"], "TimingSource.tla (source rule, all-or-nothing timing data, displayed BPM classes) + MC_TimingSource + Trace_TimingSource"),
     ("beat", "spec/beat", ["C14"], "Beat.tla (exact / snapped construction, Str3 closed form, arithmetic, decimal and event-list parsing) + MC_Beat + Trace_Beat"),
     ("convert", "spec/convert", ["C16", "C17"],
